@@ -287,6 +287,38 @@ fn all_configs(max_tags: usize, max_entries: usize) -> Vec<(Vec<Tag>, Vec<usize>
     out
 }
 
+/// for C10: the staged pipelines of the four-tag forests (every declaration order, all tags in one `asca seq` invocation) against the
+/// library run of each tag's concatenated rule history. Returns (configs, processes, tag outputs that agree, violations)
+pub fn staged_pipelines_for_c10() -> (usize, u64, u64, Vec<Viol>) {
+    let shapes = shape_configs();
+    let mut t = Acc::default();
+    par_fold(shapes.len(), 4, Acc::default, |n, a| {
+        let (tags, order) = (&shapes[n].0, &shapes[n].1);
+        let cfg = config_text(tags, order);
+        let sb = Sandbox::new("c10p", n);
+        setup(&sb, tags, order);
+        a.evals += 1;
+        let o = run_cli(&sb.dir, &["seq", ".", "-o", "-y"]); a.procs += 1;
+        for (i, tg) in tags.iter().enumerate() {
+            if tg.from.is_none() { continue; }
+            // one-shot: the tag's whole rule history applied by the library to the root's words (with the root's deromaniser)
+            let mut root = i; while let Some(f) = tags[root].from { root = f; }
+            if tags.iter().enumerate().any(|(k, x)| !x.words.is_empty() && x.from.is_some() && { let mut c = i; let mut on_path = c == k; while let Some(f) = tags[c].from { c = f; if c == k { on_path = true; } } on_path }) { continue; } // extra words join mid-pipeline: not a pure R1;R2 composition
+            let groups = history(tags, i);
+            let words: Vec<String> = tags[root].words.iter().flat_map(|w| formats::parse_wsca(WORD_FILES[*w].1)).collect();
+            let into: Vec<String> = if tags[root].alias { formats::parse_alias(ALIAS).0 } else { vec![] };
+            let Out::Ok(Ok(one_shot)) = guarded(5_000_000, || asca::run(&groups, &words, &into, &[])) else { continue };
+            let want: Vec<String> = one_shot.into_iter().filter(|x| !x.is_empty()).collect();
+            match out_file(&sb, &tg.name) {
+                Some((_, g)) if nonblank(&g) == want => a.ok += 1,
+                got => a.viols.push(Viol { key: format!("seq-staged|{}|{}", tg.name, cfg.replace('\n', " ").split_whitespace().collect::<Vec<_>>().join(" ")), desc: format!("tag `{}`: `asca seq` (stages run one after the other on rendered words) wrote {:?}, one run of its whole rule history gives {:?} (exit {:?}, stderr {}); config: {}", tg.name, got, want, o.code, o.stderr.replace('\n', " | "), cfg), case: json!({"kind": "seq-staged"}) }),
+            }
+        }
+    }, |a| t.merge(a));
+    cleanup("c10p");
+    (shapes.len(), t.procs, t.ok, t.viols)
+}
+
 pub fn run() -> i32 {
     let mut r = Report::new("C20");
     if !cli_available() { r.machinery_errors.push(format!("{} not built", cli())); return r.finish(); }
